@@ -188,7 +188,7 @@ package hrpc
 //@   loop 2 invariant[C10] cbsLen >= atentry(2, cbsLen) && cbsLen == atentry(2, cbsLen) + sumvisited(q, 24 + len(m.key) + strlen(family) + strlen(q) + len(v[q]))
 //@   loop 3 invariant[C10] len(cbs) == sumvisited(f, mapsum(ite(m.mutationType == 3 && m.values[f] == nil, emptyQualifier, m.values[f]), q, 24 + len(m.key) + strlen(f) + strlen(q) + len(ite(m.mutationType == 3 && m.values[f] == nil, emptyQualifier, m.values[f])[q])))
 //@   loop 4 invariant[C10] len(cbs) == atentry(4, len(cbs)) + sumvisited(q, 24 + len(m.key) + strlen(family) + strlen(q) + len(v[q]))
-//@   at call appendCellblock#1 assert[C10] mt == kvTypeOfMutation(m.mutationType == 3, len(m.values[family]) == 0, m.deleteOneVersion)
+//@   at call appendCellblock#1 assert[C05,C10] mt == kvTypeOfMutation(m.mutationType == 3, len(m.values[family]) == 0, m.deleteOneVersion)
 //@   at call appendCellblock#1 assert[C10] ts == ite(m.timestamp == 18446744073709551615, 9223372036854775807, m.timestamp)
 //@   at call appendCellblock#1 assert[C10] haskey(ite(m.mutationType == 3 && m.values[family] == nil, emptyQualifier, m.values[family]), k1)
 //@   at call appendCellblock#1 assert[C10] sameslice(v1, ite(m.mutationType == 3 && m.values[family] == nil, emptyQualifier, m.values[family])[k1])
